@@ -539,6 +539,24 @@ def float_to_double(expression: exp.Expression) -> exp.Expression:
     return expression
 
 
+def hex_string(expression: exp.Expression) -> exp.Expression:
+    """Convert a hex string constant to a blob.
+
+    X'414243' is a BINARY constant in Snowflake, and is how the snowflake connector binds bytes client-side.
+    sqlglot renders it for duckdb as an integer (4276803).
+
+    Example:
+        >>> import sqlglot
+        >>> sqlglot.parse_one("SELECT X'414243'", read="snowflake").transform(hex_string).sql(dialect="duckdb")
+        "SELECT UNHEX('414243')"
+    """
+
+    if isinstance(expression, exp.HexString):
+        return exp.Unhex(this=exp.Literal.string(expression.this))
+
+    return expression
+
+
 def identifier(expression: exp.Expression) -> exp.Expression:
     """Convert identifier function to an identifier.
 
